@@ -122,7 +122,7 @@ SPEC = {
                   "and reopened namespaces, declarations after the entry points and after the Pipeline blocks, enums / function "
                   "prototypes / functions / typedefs between the resources, pipeline names that are prefixes of each other, "
                   "DefaultBindGroup written first / as an expression / in hexadecimal / through a named constant, mesh + pixel "
-                  "pipelines, arrays of 16-1000 elements, groups 6-9 -- and the compile() options "
+                  "and single-stage graphics pipelines, arrays of 16-1000 elements, groups 6-9 -- and the compile() options "
                   "(validate_layout_consistency, source_info, defines, a pipeline name in no-pipeline mode, buffer addresses "
                   "on every target): the oracle demands the slots of the plain spelling and a refusal (InvalidArgs) for a "
                   "fifth parameter set.",
@@ -199,7 +199,7 @@ SPEC = {
         "annotation, array lengths written as constant expressions or named constants, nested / reopened namespaces, the "
         "position of a declaration relative to functions and Pipeline blocks, enums / prototypes / functions / typedefs "
         "between the resources (the model sees one unbound root definition), the spelling and position of "
-        "DefaultBindGroup, mesh + pixel pipelines, the options validate_layout_consistency / source_info / defines and a "
+        "DefaultBindGroup, mesh + pixel and single-stage graphics pipelines, the options validate_layout_consistency / source_info / defines and a "
         "pipeline name given in no-pipeline mode (the driver maps it to no-pipeline mode; source fact "
         "optionsNeverReachBinding and nameChecksAfterTheLoop)",
         "unsized arrays (excluded by the property), two-dimensional arrays and struct-typed globals holding resources "
